@@ -47,4 +47,166 @@ def attachByTuple (children : List ChildRow) (pk : List (List Char)) : List Nat 
 /-- decidable side condition under which the key string is injective -/
 def KeySafe (parts : List (List Char)) : Prop := ∀ p ∈ parts, '_' ∉ p
 
+
+/-! ## schema/utils.go `GetIdentityFieldValuesMap`
+
+  `fieldValues[idx], zero = field.ValueOf(ctx, elem)`: every key component comes with the zero flag that
+  `field.ValueOf` reports (reflect `IsZero` of the field value: `0`, `""`, `false`, nil pointer, invalid
+  `sql.Null*`).  The flag is an input of the model, exactly as in the Go code. -/
+
+structure KeyComp where
+  val : KeyVal
+  zero : Bool
+deriving Repr, DecidableEq
+
+/-- one element of the parent slice: its address (`elem.Addr().Interface()` resp. the pointer) and key tuple -/
+structure IdRow where
+  addr : Nat
+  key : List KeyComp
+deriving Repr, DecidableEq
+
+def IdRow.vals (r : IdRow) : List KeyVal := r.key.map (·.val)
+def IdRow.keyStr (r : IdRow) : List Char := toStringKey r.vals
+
+/-- `notZero = false; for … { notZero = notZero || !zero }`: a tuple is skipped only when EVERY component is
+    zero (in particular the empty tuple); a tuple with some zero and some non-zero component is kept. -/
+def allZero (k : List KeyComp) : Bool := k.all (·.zero)
+
+/-- the two results of `GetIdentityFieldValuesMap`: `dataResults` (key string → elements, as an association list
+    in first-insertion order) and `results` (one value tuple per distinct key string, first seen) -/
+structure IdMap where
+  groups : List (List Char × List Nat)
+  values : List (List KeyVal)
+deriving Repr, DecidableEq
+
+def IdMap.empty : IdMap := ⟨[], []⟩
+
+def IdMap.hasKey (m : IdMap) (s : List Char) : Bool := m.groups.any (fun g => g.1 == s)
+
+/-- `dataResults[key]` (empty when absent) -/
+def IdMap.lookup (m : IdMap) (s : List Char) : List Nat :=
+  match m.groups.find? (fun g => g.1 == s) with
+  | some g => g.2
+  | none => []
+
+/-- `if _, ok := dataResults[dataKey]; !ok { results = append(results, fieldValues); dataResults[dataKey] = {elem} }
+     else { dataResults[dataKey] = append(dataResults[dataKey], elem) }` -/
+def IdMap.insert (m : IdMap) (s : List Char) (a : Nat) (vals : List KeyVal) : IdMap :=
+  if m.hasKey s then
+    { m with groups := m.groups.map (fun g => if g.1 == s then (g.1, g.2 ++ [a]) else g) }
+  else
+    { groups := m.groups ++ [(s, [a])], values := m.values ++ [vals] }
+
+structure IdState where
+  loaded : List Nat
+  map : IdMap
+deriving Repr, DecidableEq
+
+/-- one iteration of the `case reflect.Slice, reflect.Array` loop -/
+def idStep (st : IdState) (r : IdRow) : IdState :=
+  if st.loaded.contains r.addr then st            -- `if _, ok := loaded[elemKey]; ok { continue }`
+  else
+    let loaded := r.addr :: st.loaded             -- `loaded[elemKey] = true`
+    if allZero r.key then { st with loaded := loaded }
+    else { loaded := loaded, map := st.map.insert r.keyStr r.addr r.vals }
+
+/-- `GetIdentityFieldValuesMap` on a slice / array of elements -/
+def identitySlice (rows : List IdRow) : IdMap := (rows.foldl idStep ⟨[], IdMap.empty⟩).map
+
+/-- `GetIdentityFieldValuesMap` on a single struct: `return nil, nil` when all components are zero -/
+def identityStruct (r : IdRow) : IdMap :=
+  if allZero r.key then IdMap.empty else ⟨[(r.keyStr, [r.addr])], [r.vals]⟩
+
+/-! ## callbacks/preload.go `preload`, direct (no join table) branch, over abstract rows
+
+  `identityMap, foreignValues = GetIdentityFieldValuesMap(parents, foreignFields)`; the child query is
+  `WHERE (fk…) IN foreignValues` (served here by `fetch`, SQL tuple equality); every fetched child is appended to
+  all parents found under `identityMap[ToStringKey(child fk…)]`. -/
+
+structure KChild where
+  id : Nat
+  fk : List KeyVal
+deriving Repr, DecidableEq
+
+/-- SQL `IN (tuples)` with exact value comparison; a tuple with a NULL component equals nothing -/
+def fetchIn (children : List KChild) (values : List (List KeyVal)) : List KChild :=
+  children.filter (fun c => !c.fk.contains .nil && values.contains c.fk)
+
+/-- children attached to the parent at address `a` (in fetch order) -/
+def attachedTo (m : IdMap) (fetched : List KChild) (a : Nat) : List Nat :=
+  (fetched.filter (fun c => (m.lookup (toStringKey c.fk)).contains a)).map (·.id)
+
+def preloadDirect (parents : List IdRow) (children : List KChild) (a : Nat) : List Nat :=
+  let m := identitySlice parents
+  attachedTo m (fetchIn children m.values) a
+
+/-! ## callbacks/query.go `BuildQuerySQL` / `genJoinClause`: the ON expression list of an association join
+
+  `exprs` = one equality per reference, then (`onStmt`) the joined model's `QueryClauses` (soft-delete filter)
+  AND the caller's `join.On` — the schema clauses are added whether or not the caller passed an ON condition. -/
+
+inductive OnAtom where
+  | ownEq (parentCol childCol : List Char)      -- `parent.pk = alias.fk`   (ref.OwnPrimaryKey)
+  | relEq (parentCol childCol : List Char)      -- `parent.fk = alias.pk`
+  | constEq (childCol value : List Char)        -- `alias.fk = 'polymorphic value'`
+  | scope (n : Nat)                             -- n-th QueryClause of the joined schema (soft delete)
+  | user (n : Nat)                              -- n-th expression of the caller's ON condition
+deriving Repr, DecidableEq
+
+structure JoinRef where
+  ownPK : Bool
+  pkCol : List Char
+  fkCol : List Char
+  primaryValue : List Char
+deriving Repr, DecidableEq
+
+def refAtom (r : JoinRef) : OnAtom :=
+  if r.ownPK then .ownEq r.pkCol r.fkCol
+  else if r.primaryValue = [] then .relEq r.fkCol r.pkCol
+  else .constEq r.fkCol r.primaryValue
+
+def joinOnAtoms (refs : List JoinRef) (queryClauses : Nat) (userOn : Nat) : List OnAtom :=
+  refs.map refAtom ++ (List.range queryClauses).map .scope ++ (List.range userOn).map .user
+
+
+/-! ## callbacks/preload.go `preloadEntryPoint`: walking through JOINED relations of a single-struct destination
+
+  For a relation that is already joined the entry point does not query; it descends into the joined value:
+  `case reflect.Struct, reflect.Pointer: reflectValue := rel.Field.ReflectValueOf(ctx, rv); … preloadEntryPoint(tx, nestedJoins, …)`.
+  `ReflectValueOf` is `reflect.Indirect(rv).Field(i)`: on a nil pointer (the LEFT JOIN found no row) it panics.  When the
+  remaining path is not joined the walk ends in `preload`, which tolerates a nil pointer
+  (`GetIdentityFieldValuesMap` on an invalid value returns nothing).  (The slice branch skips nil elements.) -/
+
+inductive JVal where
+  | nilp
+  | obj (fields : List (List Char × JVal))
+deriving Repr
+
+def jfield : List (List Char × JVal) → List Char → Option JVal
+  | [], _ => none
+  | (k, v) :: rest, f => if k = f then some v else jfield rest f
+
+/-- `true` = the walk completes, `false` = nil-pointer dereference; `hops` = the consecutive joined relations on the
+    preload path, starting at `v` -/
+def entryWalk : JVal → List (List Char) → Bool
+  | _, [] => true
+  | .nilp, _ :: _ => false
+  | .obj fs, f :: rest =>
+    match jfield fs f with
+    | some v => entryWalk v rest
+    | none => true
+
+/-- value reached after following `hops` -/
+def jreach : JVal → List (List Char) → Option JVal
+  | v, [] => some v
+  | .nilp, _ :: _ => none
+  | .obj fs, f :: rest =>
+    match jfield fs f with
+    | some v => jreach v rest
+    | none => none
+
+def JVal.isNil : JVal → Bool
+  | .nilp => true
+  | .obj _ => false
+
 end Gorm
